@@ -84,7 +84,7 @@ pub(crate) fn any_debugger(state: &mut RunState, status: St) -> Debugger {
     Debugger {
         initial_state: init,
         asm_source: AsmSource::from(orig, Vec::new(), ""),
-        command_reader: crate::debugger::command::reader::verif_h::dummy_reader(),
+        command_reader: cmdh::dummy_reader(),
         status: status_of(status),
         breakpoints: any_breakpoints(orig),
         current_breakpoint: kani::any(),
@@ -196,3 +196,319 @@ dbg_attrs! { fn c13_move_goto() {
     assert!(capture::len() == 0, "debugger command wrote to the program's output");
     core::mem::forget(d);
 }}
+
+// cutters for command arms a harness's command group excludes (they are unreachable under the group's
+// mask; cutting their callees keeps symbolic execution out of them)
+fn cut_print_registers(_o: &Output, _s: &RunState) {
+    kani::assume(false);
+}
+fn cut_print_integer(_o: &Output, _v: u16) {
+    kani::assume(false);
+}
+fn cut_show_assembly(_d: &Debugger, _s: &RunState, _a: u16) {
+    kani::assume(false);
+}
+fn cut_help() {
+    kani::assume(false);
+}
+
+// ------------------------------------------------------------------ C09/C10/C11/C16: one call of next_action while running
+// From an arbitrary *running* configuration (StepOver{any}, StepInto{any}, Continue, Finish; <= 2 breakpoints;
+// any "just paused here" marker; any counters) and an arbitrary machine: the call pauses (asks for a command)
+// exactly when the reference says so -- PC outside [origin, 0xFE00) (0xFFFF included), an armed breakpoint at PC,
+// HALT at PC, or the step-over return address reached -- and otherwise returns Proceed with the documented
+// successor status, the machine untouched, no program output, breakpoints untouched and the marker re-armed.
+// The only command offered is `quit` (= end of input), so the paused branch is observable too.
+dbg_attrs! {
+#[kani::stub(crate::output::Output::print_registers, cut_print_registers)]
+#[kani::stub(crate::output::Output::print_integer, cut_print_integer)]
+#[kani::stub(crate::debugger::Debugger::show_assembly_source, cut_show_assembly)]
+#[kani::stub(crate::debugger::print_help_message, cut_help)]
+fn c10_running_step() {
+    crate::features::verif_h::set_stack(kani::any());
+    let mut s = any_state();
+    let orig = orig_of(&s);
+    let st = any_running_st();
+    let mut d = any_debugger(&mut s, st);
+    crate::output::verif_h::set_minimal_any();
+    let pc = s.pc();
+    let w = peek(&s, pc);
+    let out_of_bounds = !(pc >= orig && pc < 0xFE00);
+    let armed_bp = bp_has(&d.breakpoints, pc) && d.current_breakpoint != Some(pc);
+    let halt = is_halt(w);
+    let at_return = matches!(st, St::Over(a) if a == pc);
+    let must_pause = out_of_bounds || armed_bp || halt || at_return;
+    cmdh::allow(cmdh::C_QUIT, 1, false);
+    cmdh::forbid_reads(!must_pause);
+    let probe: u16 = kani::any();
+    let pre = snap(&s);
+    let pre_probe = peek(&s, probe);
+    let n_bp = d.breakpoints.len();
+    let pre_marker = d.current_breakpoint;
+
+    let act = d.next_action(&mut s);
+
+    assert_unchanged(&s, &pre, probe, pre_probe);
+    assert!(capture::len() == 0, "the debugger wrote to the program's output");
+    assert!(d.breakpoints.len() == n_bp, "breakpoint list changed by a control step");
+    if must_pause {
+        assert!(cmdh::reads_done() == 1 && matches!(act, Action::StopDebugger),
+            "execution went on past a breakpoint / HALT / out-of-bounds PC / return address without pausing");
+        assert!(matches!(d.status, Status::WaitForAction), "paused but status is not WaitForAction");
+        if armed_bp {
+            assert!(d.current_breakpoint == Some(pc), "fired breakpoint not remembered");
+        }
+    } else {
+        assert!(cmdh::reads_done() == 0 && matches!(act, Action::Proceed), "did not proceed although nothing asks for a pause");
+        let expect = match st {
+            St::Into(c) => if c > 0 { St::Into(c - 1) } else { St::Wait },
+            St::Cont => St::Cont,
+            St::Fin => if is_ret(w) { St::Wait } else { St::Fin },
+            St::Over(a) => St::Over(a),
+            St::Wait => St::Wait,
+        };
+        assert!(st_of(&d.status) == expect, "successor status differs from the documented stepping behaviour");
+        assert!(d.current_breakpoint.is_none(), "breakpoint marker not re-armed after leaving / passing the breakpoint");
+        // C16 ranking: Proceed is followed by the execution of an instruction (PC in user space, not HALT)
+        assert!(pc >= orig && pc < 0xFE00 && !is_halt(w));
+    }
+    kani::cover!(must_pause && armed_bp && !halt && !out_of_bounds);
+    kani::cover!(must_pause && pc == 0xFFFF);
+    kani::cover!(!must_pause && matches!(st, St::Fin) && is_ret(w));
+    kani::cover!(!must_pause && matches!(st, St::Into(0)));
+    kani::cover!(!must_pause && pre_marker == Some(pc) && bp_has(&d.breakpoints, pc));
+    core::mem::forget(d);
+}}
+
+// ------------------------------------------------------------------ C10: resuming commands from a pause
+// One arbitrary command from {step, step into k, step out, continue, quit, exit} at a paused debugger
+// (status WaitForAction), arbitrary machine.  The next read is cut, so each path is one command.
+dbg_attrs! {
+#[kani::stub(crate::output::Output::print_registers, cut_print_registers)]
+#[kani::stub(crate::output::Output::print_integer, cut_print_integer)]
+#[kani::stub(crate::debugger::Debugger::show_assembly_source, cut_show_assembly)]
+#[kani::stub(crate::debugger::print_help_message, cut_help)]
+fn c10_resume_commands() {
+    let stack_on: bool = kani::any();
+    crate::features::verif_h::set_stack(stack_on);
+    let mut s = any_state();
+    let orig = orig_of(&s);
+    let mut d = any_debugger(&mut s, St::Wait);
+    crate::output::verif_h::set_minimal_any();
+    cmdh::allow(cmdh::C_STEPOVER | cmdh::C_STEPINTO | cmdh::C_STEPOUT | cmdh::C_CONTINUE | cmdh::C_QUIT | cmdh::C_EXIT, 1, false);
+    let pc = s.pc();
+    let w = peek(&s, pc);
+    let probe: u16 = kani::any();
+    let pre = snap(&s);
+    let pre_probe = peek(&s, probe);
+    let n_bp = d.breakpoints.len();
+
+    let act = d.run_command(&mut s);
+
+    let r = cmdh::last().unwrap();
+    assert_unchanged(&s, &pre, probe, pre_probe);
+    assert!(capture::len() == 0, "the debugger wrote to the program's output");
+    assert!(d.breakpoints.len() == n_bp);
+    let halt = is_halt(w);
+    match r.sel {
+        13 => assert!(matches!(act, Some(Action::StopDebugger))),
+        14 => assert!(matches!(act, Some(Action::ExitProgram))),
+        _ => {
+            assert!(act.is_none());
+            let expect = if halt {
+                St::Wait // HALT is never executed while the debugger is attached: resuming is refused
+            } else {
+                match r.sel {
+                    1 => St::Over(pc.wrapping_add(1)),
+                    2 => St::Into(r.count - 1),
+                    3 => if stack_on { St::Fin } else { St::Wait }, // `step out` is tied to the stack feature, as implemented
+                    _ => St::Cont,
+                }
+            };
+            assert!(st_of(&d.status) == expect, "resuming command did not arm the documented stepping mode");
+        }
+    }
+    kani::cover!(r.sel == 1 && pc == 0xFFFF);
+    kani::cover!(r.sel == 2 && r.count == 0xFFFF && !halt);
+    kani::cover!(r.sel == 4 && halt);
+    kani::cover!(r.sel == 3 && stack_on && !halt);
+    core::mem::forget(d);
+}}
+
+// ------------------------------------------------------------------ C11/C13: break add / remove / list
+dbg_attrs! {
+#[kani::stub(crate::output::Output::print_registers, cut_print_registers)]
+#[kani::stub(crate::output::Output::print_integer, cut_print_integer)]
+#[kani::stub(crate::debugger::Debugger::show_assembly_source, cut_show_assembly)]
+#[kani::stub(crate::debugger::print_help_message, cut_help)]
+fn c11_break_commands() {
+    let mut s = any_state();
+    let orig = orig_of(&s);
+    let mut d = any_debugger(&mut s, St::Wait);
+    let l = bind_label(orig);
+    Output::set_minimal(true); // the non-minimal table printer is text only; minimal mode lists the same addresses
+    cmdh::allow(cmdh::C_BREAKADD | cmdh::C_BREAKREMOVE | cmdh::C_BREAKLIST, 1, false);
+    let probe: u16 = kani::any();
+    let pre = snap(&s);
+    let pre_probe = peek(&s, probe);
+    let n_bp = d.breakpoints.len();
+    let q: u16 = kani::any(); // membership probe
+    let had_q = bp_has(&d.breakpoints, q);
+
+    let act = d.run_command(&mut s);
+
+    assert!(act.is_none());
+    let r = cmdh::last().unwrap();
+    assert_unchanged(&s, &pre, probe, pre_probe);
+    assert!(capture::len() == 0, "the debugger wrote to the program's output");
+    assert!(matches!(d.status, Status::WaitForAction));
+    let target = match spec_resolve(&r, pre.pc, orig, l) {
+        Some(a) if in_user(orig, a as i32) => Some(a),
+        _ => None,
+    };
+    let now_q = bp_has(&d.breakpoints, q);
+    match (r.sel, target) {
+        (16, Some(a)) => {
+            assert!(bp_has(&d.breakpoints, a), "break add did not add the breakpoint");
+            assert!(now_q == (had_q || q == a), "break add disturbed another breakpoint");
+        }
+        (17, Some(a)) => {
+            assert!(!bp_has(&d.breakpoints, a), "break remove left the breakpoint in place");
+            assert!(now_q == (had_q && q != a), "break remove disturbed another breakpoint");
+        }
+        _ => {
+            assert!(d.breakpoints.len() == n_bp && now_q == had_q, "refused / listing command changed the breakpoint list");
+        }
+    }
+    // the list stays sorted and duplicate-free, all members in user space
+    let n = d.breakpoints.len();
+    if n >= 2 {
+        assert!(bph::addr_at(&d.breakpoints, 0) < bph::addr_at(&d.breakpoints, 1));
+    }
+    if n >= 3 {
+        assert!(bph::addr_at(&d.breakpoints, 1) < bph::addr_at(&d.breakpoints, 2));
+    }
+    kani::cover!(r.sel == 16 && target.is_some() && n == n_bp + 1);
+    kani::cover!(r.sel == 17 && target.is_some() && n + 1 == n_bp);
+    kani::cover!(r.sel == 16 && target.is_none());
+    core::mem::forget(d);
+}}
+
+// ------------------------------------------------------------------ C12: reset
+dbg_attrs! {
+#[kani::stub(crate::output::Output::print_registers, cut_print_registers)]
+#[kani::stub(crate::output::Output::print_integer, cut_print_integer)]
+#[kani::stub(crate::debugger::Debugger::show_assembly_source, cut_show_assembly)]
+#[kani::stub(crate::debugger::print_help_message, cut_help)]
+fn c12_reset() {
+    let mut s = any_state();
+    let orig = orig_of(&s);
+    let mut d = any_debugger(&mut s, St::Wait);
+    crate::output::verif_h::set_minimal_any();
+    cmdh::allow(cmdh::C_RESET, 1, false);
+    let probe: u16 = kani::any();
+    let init = snap(&d.initial_state);
+    let init_probe = peek(&d.initial_state, probe);
+    let act = d.run_command(&mut s);
+    assert!(act.is_none());
+    // the machine is the initial machine: registers, PC, CC, origin, every memory word (symbolic probe)
+    assert_unchanged(&s, &init, probe, init_probe);
+    assert!(orig_of(&s) == orig);
+    // and the saved initial machine itself is untouched
+    assert_unchanged(&d.initial_state, &init, probe, init_probe);
+    assert!(capture::len() == 0);
+    kani::cover!(init_probe == 0x1234 && init.r[3] == 7);
+    core::mem::forget(d);
+}}
+
+/// the saved initial machine is never altered: one arbitrary command of any kind except eval (which by
+/// signature only receives the live machine) and reset (above)
+dbg_attrs! { fn c12_initial_state_immutable() {
+    crate::features::verif_h::set_stack(kani::any());
+    let mut s = any_state();
+    let orig = orig_of(&s);
+    let mut d = any_debugger(&mut s, St::Wait);
+    let _l = bind_label(orig);
+    Output::set_minimal(true);
+    cmdh::allow(0x3FFFF & !(cmdh::C_EVAL | cmdh::C_RESET | cmdh::C_HELP | cmdh::C_ASSEMBLY), 1, false);
+    let probe: u16 = kani::any();
+    let init = snap(&d.initial_state);
+    let init_probe = peek(&d.initial_state, probe);
+    let _ = d.run_command(&mut s);
+    assert_unchanged(&d.initial_state, &init, probe, init_probe);
+    assert!(orig_of(&d.initial_state) == orig);
+    kani::cover!(matches!(cmdh::last(), Some(r) if r.sel == 7 && !r.is_reg));
+    kani::cover!(matches!(cmdh::last(), Some(r) if r.sel == 16));
+    core::mem::forget(d);
+}}
+
+// ------------------------------------------------------------------ C09/C13: inspection commands change nothing
+dbg_attrs! { fn c13_inspection_readonly() {
+    let mut s = any_state();
+    let orig = orig_of(&s);
+    let mut d = any_debugger(&mut s, St::Wait);
+    let _l = bind_label(orig);
+    Output::set_minimal(true);
+    cmdh::allow(cmdh::C_PRINT | cmdh::C_REGISTERS | cmdh::C_ECHO | cmdh::C_HELP | cmdh::C_ASSEMBLY | cmdh::C_BREAKLIST, 1, false);
+    let probe: u16 = kani::any();
+    let pre = snap(&s);
+    let pre_probe = peek(&s, probe);
+    let n_bp = d.breakpoints.len();
+    let act = d.run_command(&mut s);
+    assert!(act.is_none());
+    assert_unchanged(&s, &pre, probe, pre_probe);
+    assert!(capture::len() == 0, "inspection command wrote to the program's output");
+    assert!(matches!(d.status, Status::WaitForAction));
+    assert!(d.breakpoints.len() == n_bp);
+    kani::cover!(matches!(cmdh::last(), Some(r) if r.sel == 6 && !r.is_reg && r.lkind == 2));
+    kani::cover!(matches!(cmdh::last(), Some(r) if r.sel == 9));
+    kani::cover!(matches!(cmdh::last(), Some(r) if r.sel == 5));
+    core::mem::forget(d);
+}}
+
+// ------------------------------------------------------------------ C11: marker re-arming when an instruction executes
+#[kani::proof]
+#[kani::unwind(3)]
+#[kani::stub(crate::symbol::with_symbol_table, stubs::with_symbol_table)]
+#[kani::stub(alloc::fmt::format, stubs::fmt_format)]
+fn c11_marker_cleared_on_execute() {
+    let mut s = any_state();
+    let mut d = any_debugger(&mut s, any_running_st());
+    kani::assume(d.instruction_count < u32::MAX);
+    let c = d.instruction_count;
+    d.increment_instruction_count();
+    assert!(d.instruction_count == c + 1);
+    assert!(d.current_breakpoint.is_none(),
+        "after the marked instruction has executed the breakpoint must be armed again (a self-branch returns to it at once)");
+    kani::cover!(true);
+    core::mem::forget(d);
+}
+
+// ------------------------------------------------------------------ C17: label / PC-offset resolution vs i32 reference
+dbg_attrs! { fn c17_resolve_location() {
+    let mut s = any_state();
+    let orig = orig_of(&s);
+    let d = any_debugger(&mut s, St::Wait);
+    let l = bind_label(orig);
+    Output::set_minimal(true);
+    let mut r = cmdh::any_rec(cmdh::C_GOTO);
+    kani::assume(r.lkind != 0);
+    r.is_reg = false;
+    let got = match r.lkind {
+        1 => d.resolve_pc_offset(s.pc(), r.off),
+        _ => d.resolve_label(&crate::debugger::command::Label { name: cmdh::LABEL_NAME, offset: r.off }),
+    };
+    let want = spec_resolve(&r, s.pc(), orig, l);
+    assert!(got == want, "label / PC-offset location does not resolve to origin + line - 1 + offset (or is refused inside user space)");
+    kani::cover!(matches!(want, Some(a) if a >= 0x8000) && r.lkind == 2);
+    kani::cover!(want.is_none() && r.lkind == 2);
+    core::mem::forget(d);
+}}
+
+/// re-exports for harnesses outside `debugger` (the `breakpoint` module is private to it)
+pub(crate) fn bp_addr_at(b: &Breakpoints, i: usize) -> u16 {
+    bph::addr_at(b, i)
+}
+pub(crate) fn bp_predefined_at(b: &Breakpoints, i: usize) -> bool {
+    bph::predefined_at(b, i)
+}
